@@ -72,11 +72,10 @@ Proof.
   destruct (child_eof E s1 (os_cgfail o1)) as [s2 ok].
   destruct (wait_result (c_exit (e_spec E n)) (negb ok)) as [code err] eqn:Ew.
   intros H; injection H as <- <-. split; auto.
-  exists (negb ok), (st_obs (if close_timing E n os s2 then set_unmod (if err || os_err o1 then print_errorf E (add_log s2 (EvClose n false code)) else add_log s2 (EvClose n false code))
-                               else (if err || os_err o1 then print_errorf E (add_log s2 (EvClose n false code)) else add_log s2 (EvClose n false code)))),
+  exists (negb ok), (st_obs (if err || os_err o1 then print_errorf E (add_log s2 (EvClose n false code)) else add_log s2 (EvClose n false code))),
          (st_log s2).
   rewrite Ew. cbn [fst st_obs st_log add_obs]. split; auto.
-  destruct (close_timing E n os s2); cbn [st_log set_unmod]; (destruct (err || os_err o1); [unfold print_errorf; rewrite (proj1 (flush_stdout_log E _))|]; reflexivity).
+  destruct (err || os_err o1); [unfold print_errorf; rewrite (proj1 (flush_stdout_log E _))|]; reflexivity.
 Qed.
 
 (* in particular: a non-zero exit status, a signal or a core dump is always reported as such *)
@@ -117,9 +116,9 @@ Theorem write_failure_after_failed_flush E cap s ps ops :
 Proof.
   intros Hm He Hp. unfold run. cbn [exec step get_output_stream].
   unfold write_stdout. rewrite Hm.
-  assert (Ht : st_out (add_log (touch E s (length (concat ps))) (EvWrite WStdout (concat ps))) = st_out s).
+  assert (Ht : st_out (add_log (touch E s) (EvWrite WStdout (concat ps))) = st_out s).
   { cbn [st_out add_log]. unfold touch.
-    destruct (negb (is_osfile (e_mode E)) && any_cmd (st_outs s)); cbn [st_outs set_overlap];
+    destruct (negb (is_osfile (e_mode E)) && any_active (st_outs s)); cbn [st_outs set_overlap];
     match goal with |- context [if ?c then set_unmod _ else _] => destruct c end; auto. }
   rewrite Ht. destruct ps as [|p ps]; [contradiction|]. cbn [write_pieces_buf]. unfold bw_write_string. rewrite He. reflexivity.
 Qed.
